@@ -5,9 +5,9 @@
 #include <sys/stat.h>
 
 enum { SW_LOCALS, SW_BLOCKLOCALS, SW_LIT, SW_STRINGS, SW_FUNCS, SW_GLOBALS, SW_INHERITS, SW_CLASSES, SW_MEMBERS, SW_SWITCH, SW_INCDEPTH, SW_IFDEPTH, SW_EXPAND, SW_LINELEN, SW_NEST, SW_LITERAL,
-  SW_CODESIZE, SW_OVERRIDE, SW_MANYLITS, SW_SWITCHSTR, SW_ABORT, SW_ROLES, SW_LITBLK, SW_TERM, SW_NFAM };
+  SW_CODESIZE, SW_OVERRIDE, SW_MANYLITS, SW_SWITCHSTR, SW_ABORT, SW_ROLES, SW_LITBLK, SW_TERM, SW_BLOCKCHUNK, SW_LONGTOK, SW_NFAM };
 static const char *famname[] = { "locals", "blocklocals", "funlit", "strings", "functions", "globals", "inherits", "classes", "members", "switch", "include-depth", "if-depth",
-  "macro-expansions", "line-length", "nesting", "literal", "code-size", "override", "many-funlits", "switch-string-sizes", "abort-inside-open-construct", "name-roles", "literals-and-closed-blocks", "file-termination" };
+  "macro-expansions", "line-length", "nesting", "literal", "code-size", "override", "many-funlits", "switch-string-sizes", "abort-inside-open-construct", "name-roles", "literals-and-closed-blocks", "file-termination", "text-block-chunks", "long-tokens" };
 typedef struct { int fam, a, b, c, d; } scase;
 static scase *cases; static long ncases, capcases;
 static void add (int fam, int a, int b, int c, int d) {
@@ -213,6 +213,13 @@ void sweep_prepare (int thorough) {
   /* families added later come last: the indices of the cases above (stored replays) stay what they were */
   add_litblk (N);
   for (int body = 0; body < NTERM_BODY; body++) for (int e = 0; e < NTERM_END + 2 * NTERM_HDR; e++) for (int mode = 0; mode < 2; mode++) for (int prev = 0; prev < NTERM_PREV; prev++) add (SW_TERM, body, e, prev, mode);
+  /* text / array blocks are collected in chunks of MAXCHUNK (4096) bytes, at most DEFMAX/MAXCHUNK = 2 of them: a quote or backslash (stored with a
+   * protecting backslash) and plain text on every position around the end of the first and of the second chunk.  a = block kind | special << 1,
+   * b = which chunk end, c = filler before the special character in the last line */
+  for (int kind = 0; kind < 2; kind++) for (int sp = 0; sp < 5; sp++) for (int chunk = 0; chunk < 2; chunk++) for (int k = 40; k <= 130; k++) add (SW_BLOCKCHUNK, kind | sp << 1, chunk, k, 0);
+  /* tokens longer than the 255 bytes the scratchpad serves from its own area, pending when the compile is left: a = where, b = length */
+  { int lens[] = { 200, 250, 251, 252, 253, 254, 255, 256, 257, 258, 259, 260, 300, 600, 1000 };
+    for (int where = 0; where < 24; where++) for (int i = 0; i < 15; i++) add (SW_LONGTOK, where, lens[i], 0, 0); }
 }
 
 /* is this case compared with the outcome of another case (the same text compiled with nothing before it)?  -> index of that case, else -1 */
@@ -539,6 +546,52 @@ int sweep_gen (long idx, sb_t *o, char *desc, size_t dlen) {
     }
     snprintf (desc, dlen, "literals-and-closed-blocks depth=%d %s outer=%d+%d closed lit1=%d+%d lit2=%d+%d lit3=%d maxlocals=%d", d, v ? "arguments" : "locals", cnt[0], closed[0],
               d >= 1 ? cnt[1] : 0, d >= 1 ? closed[1] : 0, d >= 2 ? cnt[2] : 0, d >= 2 ? closed[2] : 0, d >= 3 ? cnt[3] : 0, c02_maxlocals);
+    break;
+  }
+  case SW_BLOCKCHUNK: {
+    static const char *SP[] = { "\"", "\\", "\\\"", "\"\"", "x" };
+    static const char *SPN[] = { "quote", "backslash", "backslash-quote", "two-quotes", "plain" };
+    int kind = c.a & 1, sp = c.a >> 1, full = c.b ? 8 : 4;
+    sb_puts (o, kind ? "string *s = @@END\n" : "string s = @END\n");
+    for (int i = 0; i < full; i++) { repc (o, 'a' + i, 1000); sb_puts (o, "\n"); }
+    repc (o, 'k', c.c); sb_puts (o, SP[sp]); sb_puts (o, "tail of the line\nlast line\nEND\n;\nint after_block() { return 3; }\n");
+    snprintf (desc, dlen, "text-block-chunks %s block, %s after %d lines of 1000 and %d bytes (end of chunk %d)", kind ? "array" : "text", SPN[sp], full, c.c, c.b + 1);
+    break;
+  }
+  case SW_LONGTOK: {
+    static const char *WN[] = { "function-name-then-syntax-error", "inherit-of-a-program-that-is-not-loaded", "string-then-syntax-error", "identifier-at-end-of-file", "string-at-end-of-file",
+      "two-strings-then-syntax-error", "define-name", "define-body-then-syntax-error", "identifier-in-functional-then-end-of-file", "class-name-then-syntax-error", "valid-function-name", "valid-string",
+      "undefined-variable", "undefined-function", "undefined-class", "global-declared-twice", "function-defined-twice", "unknown-inherit-label", "unknown-efun", "unknown-class-member",
+      "include-not-found", "unknown-pragma", "unknown-directive", "argument-declared-twice" };
+    int L = c.b;
+    switch (c.a) {
+    case 0: sb_puts (o, "int "); repc (o, 'f', L); sb_puts (o, "( { return 1; }\nint tail() { return 2; }\n"); break;
+    case 1: sb_puts (o, "inherit \"/c02/sw/"); repc (o, 'p', L); sb_puts (o, "\";\nint tail() { return 2; }\n"); break;
+    case 2: sb_puts (o, "string f() { return \""); repc (o, 's', L); sb_puts (o, "\" + ; }\n"); break;
+    case 3: sb_puts (o, "int x;\nint "); repc (o, 'i', L); break;
+    case 4: sb_puts (o, "string f() { return \""); repc (o, 's', L); sb_puts (o, "\""); break;
+    case 5: sb_puts (o, "string f() { return \""); repc (o, 's', L); sb_puts (o, "\" \""); repc (o, 't', L); sb_puts (o, "\" ) ; }\n"); break;
+    case 6: sb_puts (o, "#define "); repc (o, 'D', L > 250 ? 250 : L); sb_puts (o, " 1\nint x = "); repc (o, 'D', L > 250 ? 250 : L); sb_puts (o, " + ;\n"); break;
+    case 7: sb_puts (o, "#define DD \""); repc (o, 'd', L); sb_puts (o, "\"\nstring x = DD DD + ;\n"); break;
+    case 8: sb_puts (o, "mixed g = (: "); repc (o, 'n', L); break;
+    case 9: sb_puts (o, "class "); repc (o, 'c', L); sb_puts (o, " { int m; \nint f( { }\n"); break;
+    case 10: sb_puts (o, "int "); repc (o, 'f', L); sb_puts (o, "() { return 1; }\nint tail() { return "); repc (o, 'f', L); sb_puts (o, "(); }\n"); break;
+    case 11: sb_puts (o, "string f() { return \""); repc (o, 's', L); sb_puts (o, "\"; }\n"); break;
+    /* a message that quotes the name */
+    case 12: sb_puts (o, "int f() { return "); repc (o, 'u', L); sb_puts (o, "; }\n"); break;
+    case 13: sb_puts (o, "int f() { return "); repc (o, 'u', L); sb_puts (o, "(1); }\n"); break;
+    case 14: sb_puts (o, "class "); repc (o, 'u', L); sb_puts (o, " v;\nint f() { return 1; }\n"); break;
+    case 15: sb_puts (o, "int "); repc (o, 'g', L); sb_puts (o, ";\nstring "); repc (o, 'g', L); sb_puts (o, ";\n"); break;
+    case 16: sb_puts (o, "int "); repc (o, 'f', L); sb_puts (o, "() { return 1; }\nint "); repc (o, 'f', L); sb_puts (o, "() { return 2; }\n"); break;
+    case 17: sb_puts (o, "int f() { return "); repc (o, 'l', L); sb_puts (o, "::create(); }\n"); break;
+    case 18: sb_puts (o, "int f() { return efun::"); repc (o, 'e', L); sb_puts (o, "(); }\n"); break;
+    case 19: sb_puts (o, "class cc { int m; }\nint f() { class cc v = new(class cc); return v->"); repc (o, 'm', L); sb_puts (o, "; }\n"); break;
+    case 20: sb_puts (o, "#include \""); repc (o, 'h', L); sb_puts (o, ".h\"\nint f() { return 1; }\n"); break;
+    case 21: sb_puts (o, "#pragma "); repc (o, 'p', L); sb_puts (o, "\nint f() { return 1; }\n"); break;
+    case 22: sb_puts (o, "#"); repc (o, 'd', L); sb_puts (o, " 1\nint f() { return 1; }\n"); break;
+    case 23: sb_puts (o, "int f(int "); repc (o, 'a', L); sb_puts (o, ", int "); repc (o, 'a', L); sb_puts (o, ") { return 1; }\n"); break;
+    }
+    snprintf (desc, dlen, "long-tokens %s length=%d", WN[c.a], L);
     break;
   }
   case SW_TERM: {
